@@ -26,6 +26,9 @@
 //!                      open, closed into a cycle, closed into a cycle entered from a tail
 
 mod graph;
+#[path = "../c10x/glob.rs"]
+#[allow(dead_code)]
+mod globfam;
 
 use graph::*;
 use mccore::engine::{self, kind_tag};
@@ -1070,7 +1073,53 @@ fn main() {
                 }
             },
         );
+        // ---------------------------------------------------------------- the glob entry points
+        // `load_from_glob` / `full_reload` (cargo feature glob_fs) drop the previous glob's templates
+        // and validate what is left: the set they accept has to be a valid one whatever the files
+        // are at that moment - also when the glob finds no file at all and a hand-added template
+        // still includes one of the files that went away (seeded change C11-11). The histories and
+        // the fresh-instance oracle are C10's (props/src/bin/c10x/glob.rs); what this check adds to
+        // its own families is the entry point.
+        let glob_root = files_dir.join("glob");
         if run.is_supervisor() {
+            globfam::Store::create(&glob_root);
+        }
+        let cops = globfam::changing_ops();
+        let cn = cops.len() as u64;
+        let cdepth: u32 = if thorough { 6 } else { 5 };
+        let gops = globfam::ops();
+        let gn = gops.len() as u64;
+        let gdepth: u32 = if thorough { 5 } else { 4 };
+        let (cops_ref, gops_ref, glob_root_ref) = (&cops, &gops, &glob_root);
+        run.family(
+            Family::new(
+                "glob-entry-changing-files",
+                cn * cn,
+                &format!("ALL histories of length <= {cdepth} over {cn} operations (load_from_glob of a directory whose files change between the calls - valid, a file stopped parsing, a file removed, no file at all, other content - and of a fixed directory; full_reload; a refused pattern; a hand-added template including one of the glob's files): a call is accepted exactly when the resulting set is valid on a fresh instance, and the instance then renders like that fresh instance"),
+            )
+            .describe(|item| json!({"api": "load_from_glob / full_reload over changing files", "history_prefix": [globfam::op_json(cops_ref[(item / cn) as usize]), globfam::op_json(cops_ref[(item % cn) as usize])]}))
+            .crash_signature(|_, kind| format!("{kind}:glob-entry-changing-files")),
+            |item, acc: &mut Acc| {
+                let store = globfam::Store::create(glob_root_ref);
+                globfam::Explorer::new("glob-entry-changing-files", &store, cops_ref).run_item(acc, item, cdepth);
+            },
+        );
+        run.family(
+            Family::new(
+                "glob-entry",
+                gn * gn,
+                &format!("ALL histories of length <= {gdepth} over {gn} operations (load_from_glob of six fixed directories - one with a dangling parent, one valid only next to a hand-added template - of refused patterns and of a pattern matching nothing; full_reload; three hand-added templates that extend / include / call into the glob's templates): same oracle"),
+            )
+            .describe(|item| json!({"api": "load_from_glob / full_reload", "history_prefix": [globfam::op_json(gops_ref[(item / gn) as usize]), globfam::op_json(gops_ref[(item % gn) as usize])]}))
+            .crash_signature(|_, kind| format!("{kind}:glob-entry")),
+            |item, acc: &mut Acc| {
+                let store = globfam::Store::create(glob_root_ref);
+                globfam::Explorer::new("glob-entry", &store, gops_ref).run_item(acc, item, gdepth);
+            },
+        );
+        if run.is_supervisor() {
+            let (ok, err) = (run.counter("glob_api_ok"), run.counter("glob_api_err_on_nonempty"));
+            run.guard("glob-entry-both-outcomes", ok > 100 && err > 100, format!("accepted={ok} refused on an instance holding templates={err}"));
             let _ = std::fs::remove_dir_all(&files_dir);
         }
     }
